@@ -201,6 +201,25 @@ class Lab:
                             reads.append(self._read_record(name, None, vg, states=states))
             return fn
 
+        def l_setloc(tag):
+            # a location change through the provider API (ProviderMdibMethods.set_location + publishing the new scope)
+            def fn():
+                from sdc11073.location import SdcLocation
+                self.tok_n += 1    # (a location equal to the present one is ignored by the provider)
+                self.pair.provider.set_location(SdcLocation(fac='fac', poc='poc', bed=f'bed_{tag}_{self.tok_n}'))
+            return fn
+
+        def w_ctx_newloc():
+            # application code that does by hand what a location change does: everything inside one context transaction
+            def fn():
+                self.tok_n += 1
+                with m.context_state_transaction() as mgr:
+                    mgr.disassociate_all(conc('lc'))
+                    st = mgr.mk_context_state(conc('lc'), set_associated=True)
+                    from sdc11073.location import SdcLocation
+                    st.update_from_sdc_location(SdcLocation(fac='fac', poc='poc', bed=f'bed_w_{self.tok_n}'))
+            return fn
+
         def r_ctx(handles):
             def fn():
                 hs = None if handles is None else [proj.map_c.get(h) or conc(h) for h in handles]
@@ -218,6 +237,7 @@ class Lab:
             'O_setstring_a': o_setstring('va'), 'O_setstring_b': o_setstring('vb'),
             'P_periodic': p_periodic(),
             'W_rt': w_rt('rt'), 'R_state_rt': r_state(['rt'], 'GetMdState[req]'),
+            'L_setloc_a': l_setloc('a'), 'L_setloc_b': l_setloc('b'), 'W_ctx_newloc': w_ctx_newloc(),
             'R_descr_dA': r_descr_of(['dA']), 'W_add_dA': w_add('dA', 'vmd'), 'W_del_dA': w_del('dA'),
         }
         return table[name]
@@ -245,6 +265,18 @@ class Lab:
                 'label': vg.mdib_version, 'entries': entries,
                 'has_states': bool(states) or kind.startswith('GetMdState') or kind in ('GetMdib', 'GetContextStates'),
                 'has_descrs': descrs is not None}
+
+    def _ctx_snapshot(self):
+        """All context states of the real MDIB (whatever their handles): association and binding marks, per descriptor."""
+        names = self.__dict__.setdefault('_ctx_names', {})
+        out = {}
+        for st in sorted(self.mdib.context_states.objects, key=lambda x: (x.BindingMdibVersion or 0, x.Handle)):
+            n = names.setdefault(st.Handle, 's%d' % len(names))
+            out[n] = {'d': st.DescriptorHandle, 'assoc': st.ContextAssociation.value if st.ContextAssociation else 'No',
+                      'bind': -1 if st.BindingMdibVersion is None else st.BindingMdibVersion,
+                      'unbind': -1 if st.UnbindingMdibVersion is None else st.UnbindingMdibVersion,
+                      'start': st.BindingStartTime is not None, 'end': st.BindingEndTime is not None}
+        return {'st': out}
 
     # ------------------------------------------------------------------ recording of programs
     def record_program(self, name):
@@ -286,11 +318,15 @@ class Lab:
         self.ref.s = s
         threads = {i + 1: s.spawn(i + 1, self.op(n)) for i, n in enumerate(names)}
         phist = {}
+        ctxhist = {}
         depth = 0
+        mver0 = self.mdib.mdib_version
+        writes0 = self.mdib._verif_store['writes']   # noqa: SLF001
 
         def snap():
             p = self.proj.project(self.mdib)
             phist[str(p['mver'])] = {k: p[k] for k in ('D', 'S', 'C', 'mver')}
+            ctxhist[str(p['mver'])] = self._ctx_snapshot()
         snap()
         try:
             for tid in schedule:
@@ -311,7 +347,11 @@ class Lab:
             th.join(timeout=5)
         errs = [f'{names[t - 1]}: {e!r}'[:200] for t, e in sorted(getattr(s, 'errors', {}).items())]
         executed = [[t, e['op'], e['lock']] for t, e in s.events]
-        return {'ops': list(names), 'schedule': list(schedule), 'reads': list(self.reads), 'phist': phist,
+        snap()
+        vers = sorted(int(k) for k in ctxhist)
+        return {'mver0': mver0, 'mver_end': self.mdib.mdib_version, 'nwv': self.mdib._verif_store['writes'] - writes0,
+                'ctxhist': [dict(ctxhist[str(v)], v=v) for v in vers],
+                'ops': list(names), 'schedule': list(schedule), 'reads': list(self.reads), 'phist': phist,
                 'wire': list(self.wire), 'executed': executed, 'errors': errs, 'txids': list(self.txids), 'txid0': txid0}
 
     def close(self):
